@@ -166,7 +166,25 @@ def build(ex):
 
     # ---------------------------------------------------------------- L2 thread (shared with C03)
     lemmas.append((childrun.thread_run_injected(ex, 'L2t', 'C01'), None))
+    lemmas += history_lemmas(ex)
     return lemmas
+
+
+def history_lemmas(ex):
+    """L2w: the outcome survives a HISTORY of parent-side calls - ProcessWorker.wait() may be called any number of times while the child is exiting; a final
+    message it has already received must not be forgotten by a later call (contract of the C04 cone on the real wait(), restricted to that clause)"""
+    from . import C04
+    out = []
+    saved = dict(ex.call_hooks)
+    for con, v in C04.build(ex):
+        if con.lid == 'Lw-process':
+            con.lid = 'L2w'
+            con.name = 'C01.L2w ProcessWorker.wait never forgets a final message an earlier wait() has already received'
+            con.ensures = [e for e in con.ensures if getattr(e, '__name__', '') == 'early_kept']
+            out.append((con, v))
+    ex.call_hooks.clear()
+    ex.call_hooks.update(saved)
+    return out
 
 
 def replay(ob, repo):
